@@ -1518,8 +1518,16 @@ fn gen_c17_case(r: &mut Rng, stats: &mut HashMap<String, usize>) -> (String, Vec
 fn gen_c18_case(r: &mut Rng, stats: &mut HashMap<String, usize>) -> (String, Vec<String>) {
     let p = qgen::gen_program(r, 5, true);
     let ns = r.below(p.stmts.len() + 1);
+    // late binding: the session holds a gate whose body names a gate that is defined only later (or a built-in that is
+    // shadowed later); the rejected chunk defines that name and applies the outer gate before its error, the continuation
+    // defines it differently and applies the outer gate again
+    let late = r.chance(1, 4);
+    let late_inner = if r.chance(1, 2) { "lbinner" } else { "h" };
     let session = {
         let mut v = p.decls.clone();
+        if late {
+            v.push(format!("gate lbouter a {{ {late_inner} a; }}"));
+        }
         v.extend(p.stmts[..ns].iter().cloned());
         v
     };
@@ -1544,6 +1552,10 @@ fn gen_c18_case(r: &mut Rng, stats: &mut HashMap<String, usize>) -> (String, Vec
             failing.push(format!("freshg {q0};"));
         }
     }
+    if late {
+        failing.push(format!("gate {late_inner} a {{ x a; }}"));
+        failing.push(format!("lbouter {q0};"));
+    }
     // (statements around the late classical register `lt` are not re-used: its declaration may or may not be in the session)
     let reusable = |s: &String| !s.contains("lt[") && !s.contains("(lt==");
     for s in p.stmts.iter().chain(p2.stmts.iter()).take(npre) {
@@ -1555,7 +1567,12 @@ fn gen_c18_case(r: &mut Rng, stats: &mut HashMap<String, usize>) -> (String, Vec
     failing.extend(p.stmts.iter().filter(|s| reusable(s)).take(r.below(3)).cloned());
     *stats.entry(format!("plant.{variant}")).or_default() += 1;
     *stats.entry(format!("prefix.{}", failing.len() - 1)).or_default() += 1;
-    let cont: Vec<String> = p.stmts[ns..].to_vec();
+    let mut cont: Vec<String> = p.stmts[ns..].to_vec();
+    if late {
+        cont.insert(0, format!("lbouter {q0};"));
+        cont.insert(0, format!("gate {late_inner} a {{ z a; s a; }}"));
+        *stats.entry("late-binding".into()).or_default() += 1;
+    }
     let seed = r.next() >> 1;
     let mut cmds = vec!["inew".to_string(), format!("iadd {}", hex(&join_src(&session))), "isnap".into()];
     cmds.push(format!("iadd {}", hex(&join_src(&failing))));
